@@ -658,8 +658,453 @@ def correspondence(rng, tier):
     return out
 
 
+# ------------------------------------------------------------------- probes
+def _rand_geoms(rng, tier):
+    """(name, class key, geometry, has_src) for every geometry class with generic float parameters."""
+    import odl
+    T = odl.tomo
+    out = []
+    n = 2 if tier == 'quick' else 6
+    ap, dp1 = _parts(odl, 1)
+    _, dp2 = _parts(odl, 2)
+    ap2, _ = _parts(odl, 2, 2)
+    ap3, _ = _parts(odl, 2, 3)
+
+    def v(k):
+        while True:
+            x = [round(rng.uniform(-2, 2), 3) for _ in range(k)]
+            if np.linalg.norm(x) > 0.3:
+                return x
+
+    def axes3():
+        while True:
+            a0, a1 = v(3), v(3)
+            if np.linalg.norm(np.cross(a0, a1)) > 0.3:
+                return [a0, a1]
+    for _ in range(n):
+        tr2, tr3 = v(2), v(3)
+        out.append(('Parallel2dGeometry', 'par2d', T.Parallel2dGeometry(
+            ap, dp1, det_pos_init=v(2), det_axis_init=rng.choice([None, v(2)]), translation=tr2)))
+        out.append(('Parallel3dAxisGeometry', 'par3a', T.Parallel3dAxisGeometry(
+            ap, dp2, axis=v(3), det_pos_init=rng.choice([None, v(3)]), det_axes_init=rng.choice([None, axes3()]),
+            translation=tr3)))
+        out.append(('Parallel3dEulerGeometry', 'par3d', T.Parallel3dEulerGeometry(
+            rng.choice([ap2, ap3]), dp2, det_pos_init=v(3), det_axes_init=rng.choice([None, axes3()]),
+            translation=tr3)))
+        ss, ds = rnd_shift(rng, 2), rnd_shift(rng, 2)
+        kw = {}
+        if ss:
+            kw['src_shift_func'] = ss
+        if ds:
+            kw['det_shift_func'] = ds
+        out.append(('FanBeamGeometry', 'fan', T.FanBeamGeometry(
+            ap, dp1, rng.uniform(1, 5), rng.uniform(0.5, 5), det_curvature_radius=rng.choice([None, rng.uniform(1, 6)]),
+            src_to_det_init=v(2), det_axis_init=rng.choice([None, v(2)]), translation=tr2, **kw)))
+        ss, ds = rnd_shift(rng, 3), rnd_shift(rng, 3)
+        kw = {}
+        if ss:
+            kw['src_shift_func'] = ss
+        if ds:
+            kw['det_shift_func'] = ds
+        kind = rng.choice(['flat', 'flat', 'cyl', 'sph'])
+        rad = rng.uniform(1, 6)
+        curv = {'flat': None, 'cyl': (rad, None), 'sph': (rad, rad)}[kind]
+        if kind == 'flat':
+            axis, axes = v(3), rng.choice([None, axes3()])
+        else:       # exact float perpendicularity is demanded by the curved detectors
+            axis, axes = rng.choice([(0, 0, 1), (0, 0, 2.5)]), rng.choice([None] + [list(p) for p in PERP3])
+        out.append(('ConeBeamGeometry[%s]' % kind, 'cone', T.ConeBeamGeometry(
+            ap, dp2, rng.uniform(1, 5), rng.uniform(0.5, 5), det_curvature_radius=curv, pitch=rng.choice([0, 1.5, -2.0]),
+            axis=axis, offset_along_axis=rng.choice([0, 0.75]), det_axes_init=axes, translation=tr3, **kw)))
+    return out
+
+
+def _mparam(rng, g, shape=()):
+    nd = g.motion_params.ndim
+    def one():
+        return np.array([rng.uniform(-3.9, 3.9) for _ in range(int(np.prod(shape)) or 1)]).reshape(shape) if shape \
+            else rng.uniform(-3.9, 3.9)
+    return one() if nd == 1 else tuple(one() for _ in range(nd))
+
+
+def _dparam(rng, g, shape=()):
+    nd = g.det_params.ndim
+    def one():
+        return np.array([rng.uniform(-3.9, 3.9) for _ in range(int(np.prod(shape)) or 1)]).reshape(shape) if shape \
+            else rng.uniform(-3.9, 3.9)
+    return one() if nd == 1 else tuple(one() for _ in range(nd))
+
+
+def _idx(param, ix):
+    if isinstance(param, tuple):
+        return tuple(float(np.broadcast_to(p, np.broadcast(*param).shape)[ix]) for p in param)
+    return float(param[ix])
+
+
+def _is_rot(m, tol=1e-12):
+    m = np.asarray(m)
+    return bool(np.allclose(m.T.dot(m), np.eye(len(m)), atol=tol) and abs(np.linalg.det(m) - 1) < tol)
+
+
+def _snapshot(g, pts):
+    vals = []
+    for a, u in pts:
+        vals += flat(g.rotation_matrix(a), g.det_refpoint(a), g.det_point_position(a, u), g.det_to_src(a, u))
+        if hasattr(g, 'src_position'):
+            vals += flat(g.src_position(a))
+    for attr in ('det_pos_init', 'src_to_det_init', 'translation', 'axis'):
+        if hasattr(g, attr):
+            vals += flat(getattr(g, attr))
+    vals += flat(g.detector.axis if hasattr(g.detector, 'axis') else g.detector.axes)
+    return np.array(vals)
+
+
+def _probe_slicing(rng, tier):
+    """geom[i:j] keeps every relation: same vectors at the angles it retains, the sliced partition,
+    and the original geometry is left untouched."""
+    import odl
+    T = odl.tomo
+    out = []
+    ap, dp1 = _parts(odl, 1)
+    _, dp2 = _parts(odl, 2)
+    reps = 2 if tier == 'quick' else 6
+    for _ in range(reps):
+        def v(k):
+            return [round(rng.uniform(0.3, 2) * rng.choice([1, -1]), 3) for _ in range(k)]
+        for tr_zero in (True, False):
+            tr2 = [0.0, 0.0] if tr_zero else v(2)
+            tr3 = [0.0, 0.0, 0.0] if tr_zero else v(3)
+            rad = rng.uniform(1, 5)
+            cands = [
+                ('par2d', 'odl.tomo.Parallel2dGeometry(ap, dp1, det_pos_init=%r, translation=%r)' % (v(2), tr2)),
+                ('par3a', 'odl.tomo.Parallel3dAxisGeometry(ap, dp2, axis=%r, det_pos_init=%r, translation=%r)' % (v(3), v(3), tr3)),
+                ('fan', 'odl.tomo.FanBeamGeometry(ap, dp1, 3.0, 2.0, src_to_det_init=%r, translation=%r)' % (v(2), tr2)),
+                ('fan-curved', 'odl.tomo.FanBeamGeometry(ap, dp1, 3.0, 2.0, det_curvature_radius=%r, src_to_det_init=%r, translation=%r)' % (rad, v(2), tr2)),
+                ('cone', 'odl.tomo.ConeBeamGeometry(ap, dp2, 3.0, 2.0, axis=%r, pitch=1.5, offset_along_axis=0.5, translation=%r)' % (v(3), tr3)),
+                ('cone-curved', 'odl.tomo.ConeBeamGeometry(ap, dp2, 3.0, 2.0, det_curvature_radius=(%r, %s), pitch=1.5, translation=%r)' % (rad, rng.choice(['None', repr(rad)]), tr3)),
+            ]
+            i, j = rng.choice([(1, 7), (2, 8), (0, 4), (3, 5)])
+            lo, hi = -4.0 + i, -4.0 + j
+            for key, ctor in cands:
+                nd_det = 1 if key.startswith(('par2d', 'fan')) else 2
+                pts = [(round(rng.uniform(lo, hi), 3),
+                        round(rng.uniform(-3, 3), 3) if nd_det == 1 else (round(rng.uniform(-3, 3), 3), round(rng.uniform(-1, 1), 3)))
+                       for _ in range(3)]
+                rp = ("import numpy as np, odl, sys\nsys.path.insert(0, %r)\nfrom harness.c19 import _snapshot\n"
+                      "ap = odl.uniform_partition(-4.0, 4.0, 8); dp1 = odl.uniform_partition(-4.0, 4.0, 8)\n"
+                      "dp2 = odl.uniform_partition([-4.0, -4.0], [4.0, 4.0], [8, 6])\n"
+                      "g = %s\npts = %r\nbefore = _snapshot(g, pts)\n"
+                      "try:\n    h = g[%d:%d]\n    sliced = _snapshot(h, pts); after = _snapshot(g, pts)\n"
+                      "    ok = bool(np.allclose(before, sliced, atol=1e-10) and np.allclose(before, after, atol=1e-10)\n"
+                      "              and h.motion_partition == g.motion_partition[%d:%d] and h.det_partition == g.det_partition)\n"
+                      "    observed = sliced.tolist(); expected = before.tolist()\n"
+                      "except TypeError as e:\n    ok = False; observed = repr(e)\n" % (C.VERIF, ctor, pts, i, j, i, j))
+                env = {}
+                try:
+                    exec(rp, env)
+                    ok = env['ok']
+                except Exception as e:        # noqa
+                    ok = False
+                k = 'slice-%s%s' % (key, '' if tr_zero else '-translated')
+                if key == 'par2d' and not tr_zero:
+                    k = 'parallel2d-getitem-translation-twice'
+                if key == 'cone-curved':
+                    k = 'cone-getitem-curved-typeerror'
+                out.append(C.Probe(bool(ok), k, '%s sliced [%d:%d] keeps all vectors and leaves the original unchanged' % (ctor, i, j), rp))
+    return out
+
+
+def _probe_frommatrix(rng, tier):
+    """frommatrix with a rotation matrix M and a translation t: every absolute vector is t + M (default geometry's
+    vector) -- for the classes whose motion commutes with M in that sense (2-d classes; axis-oriented 3-d classes)."""
+    import odl
+    from odl.tomo.util.utility import axis_rotation_matrix, euler_matrix
+    T = odl.tomo
+    out = []
+    ap, dp1 = _parts(odl, 1)
+    _, dp2 = _parts(odl, 2)
+    reps = 2 if tier == 'quick' else 8
+    for _ in range(reps):
+        th = rng.uniform(-3, 3)
+        ax = np.array([rng.uniform(-1, 1) for _ in range(3)])
+        ax /= np.linalg.norm(ax)
+        M2, M3 = euler_matrix(th), axis_rotation_matrix(ax, th)
+        t2, t3 = [rng.uniform(-2, 2) for _ in range(2)], [rng.uniform(-2, 2) for _ in range(3)]
+        rad = rng.uniform(1, 5)
+        for key, cls, args, kw, M, t, dp in [
+                ('par2d', T.Parallel2dGeometry, (), {}, M2, t2, dp1),
+                ('fan', T.FanBeamGeometry, (3.0, 2.0), {}, M2, t2, dp1),
+                ('fan-curved', T.FanBeamGeometry, (3.0, 2.0), {'det_curvature_radius': rad}, M2, t2, dp1),
+                ('par3a', T.Parallel3dAxisGeometry, (), {}, M3, t3, dp2),
+                ('cone', T.ConeBeamGeometry, (3.0, 2.0), {'pitch': 1.5}, M3, t3, dp2),
+                ('cone-curved', T.ConeBeamGeometry, (3.0, 2.0), {'pitch': 1.5, 'det_curvature_radius': (rad, None)}, M3, t3, dp2)]:
+            mat = np.hstack([M, np.array(t)[:, None]])
+            try:
+                g0 = cls(ap, dp, *args, **kw)
+                g = cls.frommatrix(ap, dp, *(args + (mat,)), **kw)
+                ok = True
+                for _k in range(3):
+                    a = rng.uniform(-3.9, 3.9)
+                    u = rng.uniform(-3, 3) if g.det_params.ndim == 1 else (rng.uniform(-3, 3), rng.uniform(-1, 1))
+                    ok = ok and np.allclose(g.det_point_position(a, u), t + M.dot(g0.det_point_position(a, u)), atol=1e-9)
+                    ok = ok and np.allclose(g.det_to_src(a, u), M.dot(g0.det_to_src(a, u)), atol=1e-9)
+                    ok = ok and _is_rot(g.rotation_matrix(a), 1e-10)
+                    if hasattr(g, 'src_position'):
+                        ok = ok and np.allclose(g.src_position(a), t + M.dot(g0.src_position(a)), atol=1e-9)
+            except Exception as e:        # noqa
+                ok = False
+            k = 'frommatrix-' + key
+            if key == 'cone-curved':
+                k = 'cone-curved-axes-exact-perpendicularity'
+            out.append(C.Probe(bool(ok), k, '%s.frommatrix([M|t]) = t + M (default geometry), M a rotation' % cls.__name__,
+                               None, {'matrix': mat.tolist(), 'kw': str(kw)}))
+    return out
+
+
+def _hit_coords(g, a, X):
+    """Detector coordinates at which the ray through X meets a FLAT detector at angle a."""
+    ref = g.det_refpoint(a)
+    if hasattr(g, 'src_position'):
+        src = g.src_position(a)
+        d = X - src
+    else:
+        d = -g.det_to_src(a, 0.0 if g.det_params.ndim == 1 else (0.0, 0.0))
+        src = X
+    axes = np.atleast_2d(g.det_axis(a) if hasattr(g, 'det_axis') else g.det_axes(a))
+    A = np.column_stack(list(axes) + [-d])
+    sol = np.linalg.solve(A, src - ref)
+    return sol[:-1]
+
+
+def _probe_factories(rng, tier):
+    """parallel_beam_geometry / cone_beam_geometry / helical_geometry: every corner of the volume is hit by a ray
+    that lands inside the detector, for every angle of the motion grid."""
+    import odl
+    T = odl.tomo
+    out = []
+    reps = 2 if tier == 'quick' else 6
+    for _ in range(reps):
+        for ndim in (2, 3):
+            lo = [round(rng.uniform(-2, -0.5), 2) for _ in range(ndim)]
+            hi = [round(rng.uniform(0.5, 2), 2) for _ in range(ndim)]
+            shape = [rng.randint(4, 12) for _ in range(ndim)]
+            rho = float(np.max(np.linalg.norm(np.array([[x, y] for x in (lo[0], hi[0]) for y in (lo[1], hi[1])]), axis=1)))
+            rs = round(rho * rng.uniform(1.2, 4), 2)
+            rd = round(rng.uniform(0.5, 5), 2)
+            cands = [('factory-parallel-coverage', 'odl.tomo.parallel_beam_geometry(space)', (True, True)),
+                     ('cone-beam-geometry-flat-coverage', 'odl.tomo.cone_beam_geometry(space, %r, %r)' % (rs, rd), (True, True)),
+                     ('cone-beam-geometry-flat-coverage', 'odl.tomo.cone_beam_geometry(space, %r, %r, short_scan=True)' % (rs, rd), (True, True))]
+            if ndim == 3:
+                cands.append(('cone-beam-geometry-flat-coverage', 'odl.tomo.helical_geometry(space, %r, %r, num_turns=2)' % (rs, rd), (True, False)))
+            for key, ctor, (chk_u, chk_v) in cands:
+                rp = ("import numpy as np, odl, sys\nsys.path.insert(0, %r)\nfrom harness.c19 import _hit_coords\n"
+                      "space = odl.uniform_discr(%r, %r, %r)\ng = %s\nworst = [0.0, 0.0]\n"
+                      "lo, hi = np.atleast_1d(g.det_params.min_pt), np.atleast_1d(g.det_params.max_pt)\n"
+                      "for a in g.angles:\n    for X in space.domain.corners():\n        c = _hit_coords(g, a, X)\n"
+                      "        for k in range(len(c)):\n            worst[k] = max(worst[k], (c[k] - hi[k]) / (hi[k] - lo[k]), (lo[k] - c[k]) / (hi[k] - lo[k]))\n"
+                      "observed = worst; expected = 'relative overshoot <= 1e-9 in every detector direction'\n"
+                      "ok_u = worst[0] <= 1e-9; ok_v = worst[1] <= 1e-9\n" % (C.VERIF, lo, hi, shape, ctor))
+                env = {}
+                try:
+                    exec(rp, env)
+                    ok_u, ok_v, worst = env['ok_u'], env['ok_v'], env['worst']
+                except Exception as e:       # noqa
+                    ok_u = ok_v = False
+                    worst = repr(e)
+                if chk_u:
+                    out.append(C.Probe(bool(ok_u), key, '%s on [%s, %s]: all volume corners project inside the detector '
+                                       '(horizontal direction)' % (ctor, lo, hi), rp + 'ok = ok_u\n', {'overshoot': worst}))
+                if chk_v and ndim == 3:
+                    kv = key if key.startswith('factory') else 'cone-beam-geometry-vertical-coverage'
+                    out.append(C.Probe(bool(ok_v), kv, '%s on [%s, %s]: all volume corners project inside the detector '
+                                       '(vertical direction)' % (ctor, lo, hi), rp + 'ok = ok_v\n', {'overshoot': worst}))
+    return out
+
+
+def _probe_misc(rng, tier):
+    import odl
+    T = odl.tomo
+    out = []
+    ap, dp1 = _parts(odl, 1)
+    _, dp2 = _parts(odl, 2)
+    # curved detectors with an arbitrary rotation axis (default detector axes are transformed by a rotation:
+    # perpendicular in exact arithmetic, tested with == 0 in floating point)
+    for axis in ([1, 1, 1], [1, 2, 2], [0.3, -0.2, 0.9]) + (() if tier == 'quick' else ([2, 3, 6], [1, -1, 0.5])):
+        for curv in ((2.5, None), (2.5, 2.5)):
+            rp = ("import numpy as np, odl\nap = odl.uniform_partition(-4.0, 4.0, 8)\n"
+                  "dp2 = odl.uniform_partition([-4.0, -4.0], [4.0, 4.0], [8, 6])\n"
+                  "try:\n    g = odl.tomo.ConeBeamGeometry(ap, dp2, 5.0, 5.0, det_curvature_radius=%r, axis=%r)\n"
+                  "    ok = abs(np.linalg.norm(g.det_to_src(0.3, (0.1, 0.2))) - 1) < 1e-10\n"
+                  "except ValueError as e:\n    ok = False; observed = repr(e)\n" % (curv, list(axis)))
+            env = {}
+            exec(rp, env)
+            out.append(C.Probe(bool(env['ok']), 'cone-curved-axes-exact-perpendicularity',
+                               'ConeBeamGeometry(det_curvature_radius=%r, axis=%r) can be constructed' % (curv, list(axis)), rp))
+    # slicing a geometry whose det_pos_init was passed as a float ndarray (the constructor adds the translation
+    # to that very array in place, and __getitem__ passes the same array on)
+    rp = ("import numpy as np, odl\nap = odl.uniform_partition(-4.0, 4.0, 8)\n"
+          "dp2 = odl.uniform_partition([-4.0, -4.0], [4.0, 4.0], [8, 6])\n"
+          "g = odl.tomo.Parallel3dAxisGeometry(ap, dp2, det_pos_init=np.array([0.0, 2.0, 0.0]), translation=[1.0, 2.0, 3.0])\n"
+          "before = g.det_refpoint(-2.0); h = g[1:3]\nobserved = [h.det_refpoint(-2.0).tolist(), g.det_refpoint(-2.0).tolist()]\n"
+          "expected = before.tolist()\nok = bool(np.allclose(h.det_refpoint(-2.0), before) and np.allclose(g.det_refpoint(-2.0), before))\n")
+    env = {}
+    exec(rp, env)
+    out.append(C.Probe(bool(env['ok']), 'parallel3daxis-getitem-ndarray-translation-twice',
+                       'Parallel3dAxisGeometry built from an ndarray det_pos_init: geom[1:3] keeps det_refpoint and leaves geom unchanged', rp))
+    # a constant source shift given as a list, the way the docstring shows it for det_shift_func
+    for cls, dp, n in ((T.FanBeamGeometry, dp1, 2), (T.ConeBeamGeometry, dp2, 3)):
+        sh = [0.0, 0.05, 0.1][:n]
+        rp = ("import numpy as np, odl\nap = odl.uniform_partition(-4.0, 4.0, 8)\n"
+              "dp = odl.uniform_partition(%r, %r, %r)\n"
+              "g = odl.tomo.%s(ap, dp, 3.0, 2.0, src_shift_func=lambda angle: %r, det_shift_func=lambda angle: %r)\n"
+              "g0 = odl.tomo.%s(ap, dp, 3.0, 2.0)\n"
+              "try:\n    s = g.src_position(0.3); r = g.det_refpoint(0.3)\n"
+              "    ok = bool(np.linalg.norm(s - g0.src_position(0.3)) > 1e-3 and np.linalg.norm(r - g0.det_refpoint(0.3)) > 1e-3)\n"
+              "except TypeError as e:\n    ok = False; observed = repr(e)\n"
+              % (dp.min_pt.tolist() if n == 3 else float(dp.min_pt), dp.max_pt.tolist() if n == 3 else float(dp.max_pt),
+                 list(dp.shape) if n == 3 else int(dp.shape[0]), cls.__name__, sh, sh, cls.__name__))
+        env = {}
+        exec(rp, env)
+        out.append(C.Probe(bool(env['ok']), 'src-shift-func-constant-list',
+                           '%s with src_shift_func returning a plain list (as documented for det_shift_func)' % cls.__name__, rp))
+    return out
+
+
 def probes(rng, tier):
-    return []
+    import odl
+    T = odl.tomo
+    out = []
+    tol = 1e-10
+    geoms = _rand_geoms(rng, tier)
+    # -- pointwise relations on generic float parameters
+    for name, key, g in geoms:
+        for _ in range(3):
+            a, u = _mparam(rng, g), _dparam(rng, g)
+            R = g.rotation_matrix(a)
+            out.append(C.Probe(_is_rot(R), 'rotation-' + key, '%s.rotation_matrix orthonormal with det 1' % name,
+                               None, {'angle': a}))
+            surf = g.detector.surface(u)
+            pos = g.det_point_position(a, u)
+            ok = np.allclose(pos, g.det_refpoint(a) + R.dot(surf), atol=tol)
+            out.append(C.Probe(bool(ok), 'detpoint-' + key,
+                               '%s.det_point_position = det_refpoint + R surface' % name, None, {'angle': a, 'dparam': u}))
+            d2s = g.det_to_src(a, u)
+            ok = abs(np.linalg.norm(d2s) - 1) < tol
+            if hasattr(g, 'src_position'):
+                raw = g.det_to_src(a, u, normalized=False)
+                ok = ok and np.allclose(pos + raw, g.src_position(a), atol=tol) and \
+                    np.allclose(raw / np.linalg.norm(raw), d2s, atol=tol)
+            else:
+                u2 = _dparam(rng, g)
+                axes = np.atleast_2d(g.det_axis(a) if hasattr(g, 'det_axis') else g.det_axes(a))
+                ok = ok and np.allclose(d2s, g.det_to_src(a, u2), atol=tol) and \
+                    np.allclose(axes.dot(d2s), 0, atol=tol)
+            out.append(C.Probe(bool(ok), 'det_to_src-' + key,
+                               '%s.det_to_src consistent (unit; src - det point / constant and orthogonal to the axes)' % name,
+                               None, {'angle': a, 'dparam': u}))
+            nrm = g.detector.surface_normal(u)
+            der = np.atleast_2d(g.detector.surface_deriv(u))
+            ok = abs(np.linalg.norm(nrm) - 1) < tol and np.allclose(der.dot(nrm), 0, atol=tol)
+            out.append(C.Probe(bool(ok), 'normal-' + type(g.detector).__name__,
+                               '%s.surface_normal unit and orthogonal to surface_deriv' % type(g.detector).__name__, None))
+    # -- vectorised / broadcast evaluation equals scalar evaluation entry by entry, documented shape
+    for name, key, g in geoms:
+        nd = g.ndim
+        for shape in ([(3,)] if tier == 'quick' else [(1,), (3,), (2, 2)]):
+            a, u = _mparam(rng, g, shape), _dparam(rng, g, shape)
+            fns = [('rotation_matrix', lambda a_, u_: g.rotation_matrix(a_), (nd, nd)),
+                   ('det_refpoint', lambda a_, u_: g.det_refpoint(a_), (nd,)),
+                   ('det_point_position', lambda a_, u_: g.det_point_position(a_, u_), (nd,)),
+                   ('det_to_src', lambda a_, u_: g.det_to_src(a_, u_), (nd,)),
+                   ('surface', lambda a_, u_: g.detector.surface(u_), (nd,)),
+                   ('surface_deriv', lambda a_, u_: g.detector.surface_deriv(u_), None),
+                   ('surface_normal', lambda a_, u_: g.detector.surface_normal(u_), (nd,)),
+                   ('surface_measure', lambda a_, u_: g.detector.surface_measure(u_), ())]
+            if hasattr(g, 'src_position'):
+                fns.append(('src_position', lambda a_, u_: g.src_position(a_), (nd,)))
+            if hasattr(g, 'det_axes'):
+                fns.append(('det_axes', lambda a_, u_: g.det_axes(a_), (2, nd)))
+            for fname, f, tail in fns:
+                if len(shape) > 1 and isinstance(getattr(g, 'src_shift_func', None), Shift):
+                    pass
+                try:
+                    full = np.asarray(f(a, u))
+                    ok = True
+                    if tail is not None:
+                        ok = full.shape == tuple(shape) + tail
+                    for ix in np.ndindex(*shape):
+                        one = np.asarray(f(_idx(a, ix), _idx(u, ix)))
+                        ok = ok and np.allclose(full[ix], one, atol=tol)
+                except Exception as e:       # noqa
+                    ok = False
+                out.append(C.Probe(bool(ok), 'vectorized-%s-%s' % (key if fname[:4] != 'surf' else type(g.detector).__name__, fname),
+                                   '%s.%s on arrays of shape %s equals scalar evaluation entry by entry' % (name, fname, shape),
+                                   None, {'shape': shape}))
+    # -- broadcasting between and within the parameters (documented: broadcast(...).shape + (ndim,))
+    def comps(p):
+        return list(p) if isinstance(p, tuple) else [p]
+
+    def rnd(shape):
+        return np.array([rng.uniform(-3.9, 3.9) for _ in range(int(np.prod(shape)) or 1)]).reshape(shape) \
+            if shape != () else rng.uniform(-3.9, 3.9)
+
+    def pack(cs_, nd_):
+        return cs_[0] if nd_ == 1 else tuple(cs_)
+    patterns = [('array-scalar', (3,), ()), ('scalar-array', (), (3,)), ('outer', (2, 1), (1, 3))]
+    for name, key, g in geoms:
+        nd, mnd, dnd = g.ndim, g.motion_params.ndim, g.det_params.ndim
+        for pname, sa, su in patterns:
+            a = pack([rnd(sa) for _ in range(mnd)], mnd)
+            u = pack([rnd(su) for _ in range(dnd)], dnd)
+            variants = [('between-' + pname, a, u)]
+            if dnd == 2:       # broadcasting WITHIN the detector parameter
+                variants.append(('within-dparam-' + pname, pack([rnd(()) for _ in range(mnd)], mnd),
+                                 (rnd(sa), rnd(su))))
+            if mnd >= 2:
+                variants.append(('within-mparam-' + pname, tuple([rnd(sa), rnd(su)] + [rnd(())] * (mnd - 2)),
+                                 pack([rnd(()) for _ in range(dnd)], dnd)))
+            has_shift = isinstance(getattr(g, 'src_shift_func', None), Shift) or \
+                isinstance(getattr(g, 'det_shift_func', None), Shift)
+            for vname, a_, u_ in variants:
+                if has_shift and np.ndim(comps(a_)[0]) > 1:
+                    continue        # the contract of shift functions is only given for 1-d angle arrays
+                rank_m = len(np.broadcast(*comps(a_)).shape)
+                rank_d = len(np.broadcast(*comps(u_)).shape)
+                mismatch = rank_m != rank_d and max(rank_m, rank_d) >= 2
+                bshape = np.broadcast(*(comps(a_) + comps(u_))).shape
+                dshape = np.broadcast(*comps(u_)).shape
+                fns = [('det_point_position', lambda x, y: g.det_point_position(x, y), bshape),
+                       ('det_to_src', lambda x, y: g.det_to_src(x, y), bshape),
+                       ('surface', lambda x, y: g.detector.surface(y), dshape),
+                       ('surface_normal', lambda x, y: g.detector.surface_normal(y), dshape)]
+                for fname, f, shp in fns:
+                    try:
+                        full = np.asarray(f(a_, u_))
+                        ok = full.shape == tuple(shp) + (nd,)
+                        for ix in np.ndindex(*shp):
+                            ax_ = pack([float(np.broadcast_to(c_, bshape)[ix]) if fname[:4] != 'surf' else 0.0
+                                        for c_ in comps(a_)], mnd) if fname[:4] != 'surf' else None
+                            ux_ = pack([float(np.broadcast_to(c_, shp)[ix]) for c_ in comps(u_)], dnd)
+                            ok = ok and np.allclose(full[ix], np.asarray(f(ax_, ux_)), atol=tol)
+                    except Exception as e:        # noqa
+                        ok = False
+                    owner = key if fname[:4] != 'surf' else type(g.detector).__name__
+                    curved = type(g.detector).__name__ in ('CylindricalDetector', 'SphericalDetector')
+                    k = 'broadcast-%s-%s-%s' % (owner, fname, vname)
+                    if mismatch and fname[:4] != 'surf':
+                        k = 'broadcast-rank-mismatch-' + fname
+                    if curved and vname.startswith('within-dparam'):
+                        k = 'broadcast-curved-detector-within-dparam'
+                    out.append(C.Probe(bool(ok), k,
+                                       '%s.%s broadcasts %s (mparam shapes %s, dparam shapes %s) to shape %s + (ndim,) '
+                                       'and equals scalar evaluation' % (name, fname, vname, [np.shape(c_) for c_ in comps(a_)],
+                                                                         [np.shape(c_) for c_ in comps(u_)], tuple(shp)),
+                                       None))
+    out.extend(_probe_slicing(rng, tier))
+    out.extend(_probe_frommatrix(rng, tier))
+    out.extend(_probe_factories(rng, tier))
+    out.extend(_probe_misc(rng, tier))
+    return out
 
 
 RULE = ('per geometry class: random constructor arguments (Pythagorean and generic integer axes / initial positions, '
